@@ -188,21 +188,25 @@ Definition ilist_eqb (a b : ilist) : bool :=
 Definition resolved (n config_n : pyv) : option Z :=
   match topn_len n config_n with Some (Take (Some k) _) => Some k | _ => None end.
 
-(* one observed run of the "recommender": candidate list, scorer output, ranking *)
-Definition agree_rec (ds : dataset) (i : qinput) (supplied : option (list Z)) (config_n run_n : pyv)
-    (o_hist : option (list Z)) (o_cand : list Z) (o_scores : scored) (o_out : scored) (o_ordered : bool) : bool :=
+(* one observed run: looked-up history, candidate list and the identifiers the scorer returned *)
+Definition agree_front (ds : dataset) (i : qinput) (supplied : option (list Z))
+    (o_hist : option (option (list Z))) (o_cand : list Z) (o_scored_ids : list Z) : bool :=
   let q := lookup_history ds i in
-  match o_hist, q_items q with
-  | None, None => true
-  | Some a, Some h => listZ_eqb a (map fst h)
+  match o_hist, q_items q with              (* outer None: no component asked for the history in this run *)
+  | None, _ => true
+  | Some None, None => true
+  | Some (Some a), Some h => listZ_eqb a (map fst h)
   | _, _ => false
   end
   && listZ_eqb (candidates ds q supplied) o_cand
-  && listZ_eqb (map fst o_scores) o_cand
-  && match topn_ranker (Some o_scores) run_n config_n, resolved run_n config_n with
-     | Ok (_, ordered), Some k => Bool.eqb ordered o_ordered && rec_ok_b o_cand o_scores k o_out
-     | _, _ => false
-     end.
+  && listZ_eqb o_scored_ids o_cand.
+
+(* the "recommender" of the same run: scorer output and ranking go to the verified checker *)
+Definition agree_rank (config_n run_n : pyv) (o_cand : list Z) (o_scores : scored) (o_out : scored) (o_ordered : bool) : bool :=
+  match topn_ranker (Some o_scores) run_n config_n, resolved run_n config_n with
+  | Ok (_, ordered), Some k => Bool.eqb ordered o_ordered && rec_ok_b o_cand o_scores k o_out
+  | _, _ => false
+  end.
 
 (* an observed failure *)
 Definition agree_err (items : option scored) (config_n run_n : pyv) (e : err) : bool :=
